@@ -61,7 +61,8 @@ def load_contract_module(path):
     # contract bodies are never executed at import (only `def`s); spec functions become real functions
     m.__dict__.update({k: v for k, v in vars(importlib.import_module('pyvc.api')).items() if not k.startswith('_')})
     for k in ('requires', 'ensures', 'raises', 'raises_nothing', 'modifies', 'decreases', 'invariant', 'variant',
-              'unroll', 'inline', 'use_lemma', 'ghost', 'pure', 'typed', 'fresh', 'old', 'check'):
+              'unroll', 'inline', 'use_lemma', 'ghost', 'pure', 'typed', 'fresh', 'old', 'check', 'returns', 'opaque',
+              'modifies_global', 'ensures_on_raise', 'variant', 'each'):
         m.__dict__.setdefault(k, lambda *a, **kw: True)
     m.__dict__['typed'] = monitor_mod.typed
     spec.loader.exec_module(m)
